@@ -114,28 +114,56 @@ def c17b(ctx):
     ret = g.find(lambda x: is_call(x, 'self.client.retrieve'))
     if not ret:
         ctx.bad('WMSSource._get_map:retrieve', 'no client.retrieve call', fn)
-    # (i) the direct retrieve: when supported_srs is set, request_srs was found by the equality loop
-    loop = [s for s in fn.walk() if isinstance(s, ast.For) and same(s.iter, 'self.supported_srs')]
-    ok = bool(loop)
-    if ok:
-        lp = loop[0]
-        eq = [s for s in lp.body if isinstance(s, ast.If) and isinstance(s.test, ast.Compare) and 'query.srs' in unparse(s.test) and unparse(lp.target) in unparse(s.test)]
-        ok = bool(eq) and any(isinstance(b, ast.Assign) and unparse(b.targets[0]) == 'request_srs' and unparse(b.value) == unparse(lp.target) for b in eq[0].body)
-    ctx.check(ok, 'WMSSource._get_map:srs-equality-loop', 'request_srs is the element of supported_srs that equals the query SRS', fn,
-              fail='request_srs is not taken from supported_srs by the equality loop')
-    tr = g.find(lambda x: is_call(x, 'self._get_transformed'))
-    ok = bool(tr) and all(g.guarded(n, lambda at: at.op == '==' and 'request_srs' in at.text and 'None' in at.text, True) for n, x in tr)
-    ctx.check(ok, 'WMSSource._get_map:unsupported-srs-transformed', 'a query SRS that is not supported goes through _get_transformed', fn)
-    for n, x in ret:
-        # reachable only if supported_srs empty, or request_srs is not None
-        edges = [(s, d) for s, d, test, pol in g.branch_edges()
-                 if any(at.op == '==' and 'request_srs' in at.text and 'None' in at.text and p is True for at, p in implied(test, pol))]
-        ok = bool(edges) and all(n not in g.reachable(d) for s, d in edges)
-        ctx.check(ok, 'WMSSource._get_map:retrieve-only-supported', 'the direct upstream request is not reachable with an unsupported SRS', fn, x,
-                  fail='the upstream request can be sent in an SRS that is not in supported_srs')
-    sets = [s for s in fn.walk() if isinstance(s, ast.Assign) and unparse(s.targets[0]) == 'query.srs']
-    ok = all(same(s.value, 'request_srs') for s in sets)
-    ctx.check(ok, 'WMSSource._get_map:srs-code-from-supported', 'query.srs is only replaced by the supported entry', fn)
+    # second spelling of the same guarantee: membership test, then the supported entry through best_srs -- sound because
+    # preferred_src answers with the element of the list that equals the target first (C17.k, equal-target-first)
+    member = lambda at: at.op == 'in' and unparse(at.left) == 'query.srs' and unparse(at.right) == 'self.supported_srs'
+    via_best = [s_ for s_ in fn.walk() if isinstance(s_, ast.Assign) and unparse(s_.targets[0]) == 'query.srs' and
+                is_call(s_.value, 'self.supported_srs.best_srs') and s_.value.args and unparse(s_.value.args[0]) == 'query.srs']
+    tr_ = g.find(lambda x: is_call(x, 'self._get_transformed'))
+    if via_best and tr_ and not [s_ for s_ in fn.walk() if isinstance(s_, ast.For) and same(s_.iter, 'self.supported_srs')]:
+        ps = ctx.fn('mapproxy/srs.py:PreferredSrcSRS.preferred_src')
+        pg = ps.cfg
+        prets = sorted(pg.find_stmts(lambda s_: isinstance(s_, ast.Return)), key=lambda n_: order_key(pg.stmt[n_]))
+        first_ok = False
+        if prets:
+            r0 = pg.stmt[prets[0]]
+            lp0 = enclosing(r0, ast.For)
+            first_ok = lp0 is not None and same(lp0.iter, ps.params[2]) and unparse(r0.value) == unparse(lp0.target) and \
+                pg.guarded(prets[0], lambda at: at.op == '==' and {unparse(at.left), unparse(at.right)} == {unparse(lp0.target), ps.params[1]}, True)
+        unset = lambda at: at.op is None and at.text == 'self.supported_srs'
+        via_nodes = {g.node_of[id(s_)] for s_ in via_best}
+        okb = first_ok and all(g.guarded(n, member, False) for n, x in tr_) and \
+            all(g.guarded_any(n, [(member, True), (unset, False)]) for n, x in ret) and \
+            all(d in via_nodes or (d != n and not g.reaches_avoiding(d, n, avoid=via_nodes)) for s_, d in g.guard_edges(member, True) for n, x in ret)
+        for c_, m_ in (('srs-equality-loop', 'the supported entry equal to the query SRS is found by best_srs (preferred_src answers with the equal element first)'),
+                       ('unsupported-srs-transformed', 'a query SRS that is not in supported_srs goes through _get_transformed'),
+                       ('retrieve-only-supported', 'the direct upstream request is only reached for a member of supported_srs'),
+                       ('srs-code-from-supported', 'query.srs is replaced by the entry of the supported list')):
+            ctx.check(okb, 'WMSSource._get_map:' + c_, m_, fn, fail='the membership / best_srs form does not guarantee a supported SRS code')
+        loop = None
+    else:
+        loop = [s for s in fn.walk() if isinstance(s, ast.For) and same(s.iter, 'self.supported_srs')]
+    if loop is not None:
+        ok = bool(loop)
+        if ok:
+            lp = loop[0]
+            eq = [s for s in lp.body if isinstance(s, ast.If) and isinstance(s.test, ast.Compare) and 'query.srs' in unparse(s.test) and unparse(lp.target) in unparse(s.test)]
+            ok = bool(eq) and any(isinstance(b, ast.Assign) and unparse(b.targets[0]) == 'request_srs' and unparse(b.value) == unparse(lp.target) for b in eq[0].body)
+        ctx.check(ok, 'WMSSource._get_map:srs-equality-loop', 'request_srs is the element of supported_srs that equals the query SRS', fn,
+                  fail='request_srs is not taken from supported_srs by the equality loop')
+        tr = g.find(lambda x: is_call(x, 'self._get_transformed'))
+        ok = bool(tr) and all(g.guarded(n, lambda at: at.op == '==' and 'request_srs' in at.text and 'None' in at.text, True) for n, x in tr)
+        ctx.check(ok, 'WMSSource._get_map:unsupported-srs-transformed', 'a query SRS that is not supported goes through _get_transformed', fn)
+        for n, x in ret:
+            # reachable only if supported_srs empty, or request_srs is not None
+            edges = [(s, d) for s, d, test, pol in g.branch_edges()
+                     if any(at.op == '==' and 'request_srs' in at.text and 'None' in at.text and p is True for at, p in implied(test, pol))]
+            ok = bool(edges) and all(n not in g.reachable(d) for s, d in edges)
+            ctx.check(ok, 'WMSSource._get_map:retrieve-only-supported', 'the direct upstream request is not reachable with an unsupported SRS', fn, x,
+                      fail='the upstream request can be sent in an SRS that is not in supported_srs')
+        sets = [s for s in fn.walk() if isinstance(s, ast.Assign) and unparse(s.targets[0]) == 'query.srs']
+        ok = all(same(s.value, 'request_srs') for s in sets)
+        ctx.check(ok, 'WMSSource._get_map:srs-code-from-supported', 'query.srs is only replaced by the supported entry', fn)
     gt = ctx.fn(SW + ':WMSSource._get_transformed')
     # closed forms of what is sent upstream: MapQuery(<query bbox transformed into S>, <size>, S, ...) with S = supported_srs.best_srs(query.srs)
     SRS = 'self.supported_srs.best_srs(query.srs)'
